@@ -70,6 +70,12 @@ def main() -> int:
                 mod.search(ctx)
         for d in ctx.disagreements[:50]:
             broken.append("correspondence: " + d["what"])
+        # ---- 3b. the anchored source changed since the model was last validated: look harder (never a verdict by itself) ----
+        import fingerprint
+        src_changed = fingerprint.changed_for(pid, C.REPO)
+        if src_changed and not broken and not ctx.violations and hasattr(mod, "search") and ok_d and not a.replay:
+            ctx.notes.append(f"code of {src_changed} differs from the recorded fingerprint (harness/fingerprints.json): running the failing-input search as well")
+            mod.search(ctx)
         # ---- 4. failing-input search when something broke and no concrete violation yet -----
         if broken and not ctx.violations and hasattr(mod, "search") and ok_d:
             ctx.notes.append("obligation/correspondence broken -> failing-input search on the real code")
